@@ -342,6 +342,75 @@ def main():
     for o in bad_ops:
         first = next(r for r in stats['disagree'] if r[0].startswith(o + '\t'))
         broken.append(('correspondence', o, f'model and implementation differ on {first[0]!r}: impl={first[1][:300]} model={first[2][3][:300] if len(first[2]) > 3 else "?"}'))
+    # further builds of the harness (C20: --no-default-features), same cases, same model
+    for feat in [f for f in prop.get('builds', []) if f != 'std']:
+        try:
+            bin2 = build_harness(feat)
+        except BuildError as e:
+            broken.append(('build', 'harness[' + (feat or 'no-default-features') + ']', str(e)[-800:]))
+            continue
+        recs2 = explore(prop, cases, rundir, 'b2', bin2)
+        st2 = analyse(recs2)
+        obligations += len(ops) + 1
+        bad2 = sorted(set(r[0].split('\t', 1)[0] for r in st2['disagree']))
+        discharged += len(ops) - len(bad2)
+        for o in bad2:
+            first = next(r for r in st2['disagree'] if r[0].startswith(o + '\t'))
+            broken.append(('correspondence', o + '[' + (feat or 'no-default-features') + ']',
+                           f'model and the {feat or "no-default-features"} build differ on {first[0]!r}: impl={first[1][:300]}'))
+        differ = [(a, b) for a, b in zip(recs, recs2) if a[1] != b[1]]
+        if differ:
+            a, b = differ[0]
+            broken.append(('two-builds', 'default vs ' + (feat or 'no-default-features'),
+                           f'{len(differ)} cases answer differently, first {a[0]!r}: {a[1][:200]} vs {b[1][:200]}'))
+            stats['viol'] += [b for a, b in differ[:50]]
+        else:
+            discharged += 1
+        stats['viol'] += st2['viol']
+        stats['second_build_cases'] = len(recs2)
+        stats['panics'] += st2['panics']
+    # implementation-only stream (C18: very long inputs, release and debug builds): no panic, no timeout
+    if prop.get('impl_only_gen'):
+        lc = prop['impl_only_gen'](tier, random.Random(seed + 7))
+        bins = [('release', binary)]
+        if prop.get('debug_build'):
+            try:
+                bins.append(('debug', build_harness('std', profile='debug')))
+            except BuildError as e:
+                broken.append(('build', 'harness[debug]', str(e)[-800:]))
+        for bname, bpath in bins:
+            cf = os.path.join(rundir, f'long.{bname}.cases')
+            open(cf, 'w').write('\n'.join(lc) + '\n')
+            of = os.path.join(rundir, f'long.{bname}.impl')
+            run_harness(bpath, cf, of, timeout_ms=60000)
+            outs = open(of).read().split('\n')
+            obligations += 1
+            badl = [(c_, o_) for c_, o_ in zip(lc, outs) if o_.startswith('(panic)') or o_.startswith('(timeout)') or o_.startswith('(skipped)') or not o_]
+            stats['impl_only_cases'] = stats.get('impl_only_cases', 0) + len(lc)
+            if badl:
+                c_, o_ = badl[0]
+                stats['panics'] += len(badl)
+                broken.append(('totality', f'long-inputs[{bname}]', f'{o_} on {c_[:120]!r}... ({len(c_)} chars)'))
+                stats['viol'].append((c_, o_, ['0', '1', '0', '(implementation-only stream: must return normally)']))
+            else:
+                discharged += 1
+            os.remove(cf); os.remove(of)
+    # the debug build also runs the main cases when the property is about overflow / panics
+    if prop.get('debug_build') and len(cases) <= 400000:
+        try:
+            dbin = build_harness('std', profile='debug')
+            recsd = explore(prop, cases, rundir, 'dbg', dbin)
+            std_ = analyse(recsd)
+            obligations += 1
+            if std_['disagree'] or std_['viol']:
+                r = (std_['viol'] or std_['disagree'])[0]
+                broken.append(('correspondence', 'debug-build', f'debug build differs from the model on {r[0][:200]!r}: {r[1][:200]}'))
+                stats['viol'] += std_['viol']
+            else:
+                discharged += 1
+            stats['debug_build_cases'] = len(recsd)
+        except BuildError as e:
+            broken.append(('build', 'harness[debug]', str(e)[-800:]))
     if stats['model_fail']:
         r = stats['model_fail'][0]
         broken.append(('oracle-on-model', pid, f'the model does not satisfy its own oracle on {r[0]!r} (theorem and glue disagree)'))
